@@ -57,6 +57,34 @@ namespace B { entity X; }
 entity Top;
 `
 
+// names that differ only in letter case (equal under a case-insensitive or a by-length
+// comparison): an ordering that uses a coarser key than the exact bytes leaves them in map order
+const collidingPolicyDoc = `
+@Zeta("1") @zeta("2") @ZETA("3") @zetA("4")
+permit(principal, action, resource) when { {Ab: 1, ab: 2, AB: 3, aB: context.missing}.ab == 2 };
+@b("1") @B("2")
+forbid(principal, action, resource) when { {Key: context.nope, key: principal.nope, KEY: 1 + "a"}.key == 1 };
+`
+
+const collidingEntitiesJSON = `[{"uid":{"type":"U","id":"a"},"parents":[{"type":"G","id":"x"},{"type":"G","id":"X"},{"type":"g","id":"x"}],"attrs":{"Z":1,"z":2,"zz":{"K":1,"k":2}},"tags":{"T":1,"t":2}},{"uid":{"type":"U","id":"A"},"parents":[],"attrs":{},"tags":{}},{"uid":{"type":"u","id":"a"},"parents":[],"attrs":{},"tags":{}}]`
+
+const collidingSchemaText = `
+@Doc("1") @doc("2") @DOC("3")
+namespace NS {
+  @Doc("1") @doc("2") type T = { Z: Long, z: Long };
+  @a("1") @A("2") type t = Long;
+  @Doc("1") @doc("2") entity U in [u, G] { @Doc("1") @doc("2") Z: T, z?: t } tags String;
+  entity u;
+  entity G;
+  @e("1") @E("2") entity En enum ["x", "X"];
+  @Doc("1") @doc("2") action View, view in [All, all] appliesTo { principal: [U, u], resource: [G, u], context: { Ok: Bool, ok?: T } };
+  action All;
+  action all;
+}
+@n("1") @N("2") namespace ns { entity U; }
+@Top("1") @top("2") entity Top;
+`
+
 // child -> parents; every graph has nodes with >= 2 parents
 var hierarchyGraphs = []map[string][]string{
 	{"a": {"b", "c"}, "b": {"d"}, "c": {"d", "f"}, "d": {"e"}, "e": nil, "f": {"t"}, "t": nil},
@@ -266,6 +294,78 @@ permit(principal, action, resource) when { context.s.containsAny([1]) && princip
 			}
 			sort.Strings(names)
 			return string(c) + "\n" + string(js) + "\n" + fmt.Sprint(names), nil
+		}},
+		{"colliding-names-policies", func() (string, error) {
+			pl, err := cedar.NewPolicyListFromBytes("c.cedar", []byte(collidingPolicyDoc))
+			if err != nil {
+				return "", err
+			}
+			ps := cedar.NewPolicySet()
+			var out []string
+			for i, p := range pl {
+				js, err := p.MarshalJSON()
+				if err != nil {
+					return "", err
+				}
+				var q cedar.Policy
+				if err := q.UnmarshalJSON(js); err != nil {
+					return "", err
+				}
+				js2, _ := q.MarshalJSON()
+				out = append(out, string(p.MarshalCedar()), string(js), string(q.MarshalCedar()), string(js2))
+				ps.Add(cedar.PolicyID([]string{"P", "p"}[i%2]), p)
+			}
+			psj, err := ps.MarshalJSON()
+			if err != nil {
+				return "", err
+			}
+			dec, diag := cedar.Authorize(ps, types.EntityMap{}, req)
+			return strings.Join(out, "\n") + string(ps.MarshalCedar()) + string(psj) + diagString(dec, diag), nil
+		}},
+		{"colliding-names-entities", func() (string, error) {
+			var em types.EntityMap
+			if err := json.Unmarshal([]byte(collidingEntitiesJSON), &em); err != nil {
+				return "", err
+			}
+			js, err := json.Marshal(em)
+			if err != nil {
+				return "", err
+			}
+			var out []string
+			for _, id := range []types.EntityUID{types.NewEntityUID("U", "a"), types.NewEntityUID("U", "A"), types.NewEntityUID("u", "a")} {
+				e := em[id]
+				ej, _ := json.Marshal(e)
+				out = append(out, string(ej), string(e.Attributes.MarshalCedar()), e.Tags.String())
+			}
+			return string(js) + strings.Join(out, "\n"), nil
+		}},
+		{"colliding-names-schema", func() (string, error) {
+			var s schema.Schema
+			if err := s.UnmarshalCedar([]byte(collidingSchemaText)); err != nil {
+				return "", err
+			}
+			c, err := s.MarshalCedar()
+			if err != nil {
+				return "", err
+			}
+			js, err := s.MarshalJSON()
+			if err != nil {
+				return "", err
+			}
+			var s2 schema.Schema
+			if err := s2.UnmarshalJSON(js); err != nil {
+				return "", err
+			}
+			c2, err := s2.MarshalCedar()
+			if err != nil {
+				return "", err
+			}
+			js2, err := s2.MarshalJSON()
+			if err != nil {
+				return "", err
+			}
+			_, rerr := s.Resolve()
+			return string(c) + "\n" + string(js) + "\n" + string(c2) + "\n" + string(js2) + "\n" + fmt.Sprint(rerr), nil
 		}},
 		{"schema-json-decode-reencode", func() (string, error) {
 			var s0 schema.Schema
